@@ -134,6 +134,10 @@ def run(ctx):
             n = rng.randint(9, 40) if rng.random() < 0.08 else rng.randint(3, 8)
             jobs.append((tmp, idx, [rng.choice(K) for _ in range(n)], rng.choice(['functions', 'mixed', 'mixed']), rng.randint(0, 3)))
             idx += 1
+        # many failures in one run: the failed list names every one of them
+        for kinds in (['fail_output'] * 23 + ['pass'] * 3, ['pass'] + ['fail_exc'] * 21, ['fail_output', 'all_skipped', 'fail_exc'] * 14, ['warn_then_fail'] * 33):
+            jobs.append((tmp, idx, list(kinds), 'functions', idx % 4))
+            idx += 1
         # callables named like the runner's command words: the command still means what it says
         for special in ('all', 'dump', 'list'):
             for first in ('disabled', 'pass', 'fail_output', 'all_skipped'):
